@@ -54,23 +54,55 @@ def rule_writer_wellformed(chk, prog):
     main = main[0]
     chk.analysed(main)
     zero_blocks = {b for (v, b) in ret_sources(main) if v.is_const and v.is_int and v.sval == 0}
-    for name in ("terminate_archive",):
-        cs = [c for c in main.calls() if norm_callee(c.callee) == name]
-        ok = bool(cs) and bool(zero_blocks)
-        for c in cs:
-            fe = failure_edges(main, c)
-            if not fe:
+    # the end-of-archive marker, found by what it is: an append of >= 1024 bytes out of a zero-filled local buffer,
+    # in main itself or in a helper that main calls
+    def trailer_appends(f):
+        out = []
+        for x in f.calls():
+            if slot_call(x) != ("struct.sqfs_ostream_t", "append") or len(x.ops) < 3:
+                continue
+            n_ = x.ops[2]
+            if not (n_.is_const and n_.is_int and n_.uval >= 1024):
+                continue
+            buf = strip_casts(resolve_ptr(prog, x.ops[1], f.unit)[0])
+            if not (buf.is_inst and buf.op == "alloca"):
+                continue
+            zeroed = [m for m in f.calls() if norm_callee(m.callee) == "memset" and len(m.ops) >= 3 and
+                      strip_casts(resolve_ptr(prog, m.ops[0], f.unit)[0]) is buf and m.ops[1].is_const and m.ops[1].is_int and
+                      m.ops[1].uval == 0 and f.inst_dominates(m, x)]
+            if zeroed:
+                out.append(x)
+        return out
+    cs = list(trailer_appends(main))
+    name = "append(zero blocks)"
+    if not cs:
+        for c in main.calls():
+            g = prog.fn(c.callee or "", main.unit)
+            if g is not None and not g.decl and g.unit.src.startswith("bin/sqfs2tar/"):
+                g.build()
+                if trailer_appends(g):
+                    cs.append(c)
+                    name = g.name
+    ok = bool(cs) and bool(zero_blocks)
+    for c in cs:
+        fe = failure_edges(main, c)
+        if not fe:
+            ok = False
+        for (s_, fact) in fe:
+            if consistent_reach(main, s_, c, fact, zero_blocks):
                 ok = False
-            for (s_, fact) in fe:
-                if consistent_reach(main, s_, c, fact, zero_blocks):
-                    ok = False
-            if not all(main.dominates(c.bb, b) for b in zero_blocks):
-                ok = False
-        if ok:
-            chk.ok("K1-tarend", "sqfs2tar:%s" % name, cs[0], "exit status 0 only after the end-of-archive blocks were written")
-        else:
-            chk.violation("K1-tarend", "sqfs2tar:%s" % name, cs[0] if cs else main, "sqfs2tar can exit 0 without a terminated archive")
-    # file data followed by padding
+        if not all(main.dominates(c.bb, b) for b in zero_blocks):
+            ok = False
+    if ok:
+        chk.ok("K1-tarend", "sqfs2tar:%s" % name, cs[0], "exit status 0 only after the end-of-archive blocks were written")
+    else:
+        chk.violation("K1-tarend", "sqfs2tar:%s" % name, cs[0] if cs else main, "sqfs2tar can exit 0 without a terminated archive")
+    # file data followed by padding: from the call that copies file data, on the way on which it ended with 0, every
+    # path to a return that may be 0 passes padd_file()
+    from .c13 import _e7_walk, _e7_zero_known
+
+    class _Start:
+        pass
     for f in prog.functions():
         if not f.unit.src.startswith("bin/sqfs2tar/"):
             continue
@@ -78,23 +110,28 @@ def rule_writer_wellformed(chk, prog):
         if not sp:
             continue
         chk.analysed(f)
-        pads = [c for c in f.calls() if norm_callee(c.callee) == "padd_file"]
-        bad = []
-        for (v, b) in ret_sources(f):
-            w = strip_casts(v)
-            if w in pads:
-                continue
-            if w.is_const and w.is_int and w.sval != 0:
-                continue
-            if not w.is_const and _nonzero_on_edge(f, w, b):
-                continue
-            bad.append((v, b))
-        if pads and not bad:
-            chk.ok("K1-tarpad", f.name, sp[0], "the only way to return 0 is through the result of padd_file(): file data is always "
-                   "padded to the 512-byte record size")
-        else:
-            chk.violation("K1-tarpad", f.name, sp[0], "file data can be written and 0 returned without padding to the record size: "
-                          "the next header starts mid-record")
+        for c in sp:
+            st = _Start()
+            st.bb = c.bb
+            zero = _e7_zero_known(f, c.bb) | {id(c)}
+            bad = None
+            for (v, r, path) in _e7_walk(prog, f, st, None, [], zero):
+                if v.is_const and v.is_int and v.sval != 0:
+                    continue
+                padded = False
+                for k, b_ in enumerate(path):
+                    insts = b_.insts[c.pos + 1:] if (k == 0 and b_ is c.bb) else b_.insts
+                    if any(i.op == "call" and norm_callee(i.callee) == "padd_file" for i in insts):
+                        padded = True
+                if not padded:
+                    bad = r
+                    break
+            if bad is None:
+                chk.ok("K1-tarpad", f.name, c, "after the file data was copied completely, every way to return 0 passes padd_file(): "
+                       "file data is always padded to the 512-byte record size")
+            else:
+                chk.violation("K1-tarpad", f.name, c, "file data can be written and 0 returned without padding to the record size: "
+                              "the next header starts mid-record")
 
 
 def _nonzero_on_edge(f, v, b):
